@@ -1,5 +1,5 @@
 use cosmwasm_std::{StdError, StdResult, Storage, Uint128};
-use cw_storage_plus::Item;
+use cw_storage_plus::{Item, Map};
 use white_whale_std::pool_network::asset::{Asset, AssetInfo};
 
 use white_whale_std::vault_network::vault::Config;
@@ -18,8 +18,12 @@ pub const ALL_TIME_BURNED_FEES: Item<Asset> = Item::new("all_time_burned_fees");
 pub const LOAN_COUNTER: Item<u32> = Item::new("loan_counter");
 
 // Protocol and flash-loan fees of loans that completed while an enclosing loan is still open. They sit in the
-// vault's balance, so they are netted out of the balance snapshots of the loans still open: each loan pays its own fees
+// vault's balance, so every loan still open has to end above its own baseline by what was settled inside it as well:
+// each loan pays its own fees
 pub const SETTLED_LOAN_FEES: Item<Uint128> = Item::new("settled_loan_fees");
+// SETTLED_LOAN_FEES as it stood when the loan at a given nesting depth (the value of LOAN_COUNTER while it is the
+// innermost open loan) was taken
+pub const SETTLED_FEES_AT_LOAN_START: Map<u32, Uint128> = Map::new("settled_fees_at_loan_start");
 
 /// Stores a fee in the given fees_storage_item
 pub fn store_fee(
